@@ -71,8 +71,17 @@ def reject_error(p):
     ci = p.entered('complete_immediate')
     if not ci:
         return None
-    c = ec_arg_class(p, p.arg(ci[0], 0))
-    return c[1] if c[0] == 'literal' else c[0]
+    a = p.arg(ci[0], 0)
+    c = ec_arg_class(p, a)
+    if c[0] == 'literal':
+        return c[1]
+    # e.g. `return in_range ? error_code {} : malformed_packet`: on a rejecting path the value is the
+    # one non-success literal of the expression
+    lits = {enum_of(n) for n in Expr.walk(a) if n.get('k') == 'ref' and n.get('dk') == 'enum' and 'error' in str(n.get('q', ''))}
+    lits.discard(None)
+    if len(lits) == 1:
+        return lits.pop()
+    return c[0]
 
 
 def run(fx, tier):
